@@ -122,8 +122,10 @@ ContentOK(lines, s, chain, pre) ==
      /\ \A k \in 1..Len(chain) :                                                          \* described positional arguments
           \A x \in 1..Len(s.d.cmds[chain[k]].args) :
              LET ad == s.d.cmds[chain[k]].args[x]
-                 i == FindRow(lines, Spaces(2) \o ad.name \o <<COLON>>) IN
-             ad.desc # E => (i # 0 /\ Len(lines[i]) >= ds /\ Rebuild(lines, i, RowEnd(lines, i, ds), ds) = Collapse(ad.desc))
+                 head == Spaces(2) \o ad.name \o <<COLON>> IN        \* (two commands of the chain may name a positional alike: some row has the text)
+             ad.desc # E => \E i \in 1..Len(lines) :
+                               /\ (lines[i] = head \/ HasPrefix(lines[i], Append(head, SPACE)))
+                               /\ Len(lines[i]) >= ds /\ Rebuild(lines, i, RowEnd(lines, i, ds), ds) = Collapse(ad.desc)
      /\ \A o \in 1..Len(s.d.opts) :                                                       \* a masked default's real value never appears
           (s.opts[o].mask # E /\ s.opts[o].defaults # <<>> /\ HasPrefix(s.opts[o].defaults[1], <<83, 69, 67, 82, 69, 84>>)) =>
              \A i \in 1..Len(lines) : ~IsSubstr(s.opts[o].defaults[1], lines[i])
